@@ -322,7 +322,7 @@ def check(pid, tier, seed):
             continue
         reported.add(key)
         path = os.path.join(replay_dir, '%s-%s.json' % (pid, hashlib.sha1(key.encode()).hexdigest()[:10]))
-        smallest = min((c for (_, k2, _, c) in violations if k2 == key), key=lambda c: len(canon(c)))
+        detail, smallest = min(((d2, c) for (_, k2, d2, c) in violations if k2 == key), key=lambda t: len(canon(t[1])))
         json.dump({'property': pid, 'kind': 'SPECFAIL', 'key': key, 'detail': detail, 'case': smallest,
                    'replay_cmd': 'bin/check replay %s' % path}, open(path, 'w'), indent=1)
         lines.append('VIOLATION property=%s replay=%s' % (pid, path))
